@@ -46,7 +46,7 @@ theorem rowInShape_iff (s : List Nat) (row : List Int) : rowInShape s row = true
   simp [rowInShape, RowInShape, List.all_eq_true]
 
 theorem nodup_range_ofNat (n : Nat) : ((List.range n).map Int.ofNat).Nodup :=
-  List.Pairwise.map Int.ofNat (fun a b h e => h (Int.ofNat.inj e)) List.nodup_range
+  List.Pairwise.map Int.ofNat (fun _ _ h e => h (Int.ofNat.inj e)) List.nodup_range
 
 /-- a permutation of the modes is a rearrangement of `0 .. n-1` -/
 theorem IsPermI.perm {p : List Int} {n : Nat} (h : IsPermI p n) : ((List.range n).map Int.ofNat).Perm p := by
@@ -118,35 +118,41 @@ theorem dimsTail_ok_iff (N : Nat) (M : Option Nat) (arr : List Int) (dupE : Bool
   have h3' : hasDupI arr = false ∧ dupE = false := by simpa using h3
   have hmodes : ModesOK N arr := ⟨fun x hx => ⟨h1' x hx, h2' x hx⟩, (hasDupI_false arr).1 h3'.1⟩
   have hle := hmodes.length_le
-  simp only [h1, h2, h3, Bool.false_eq_true, if_false]
+  rw [if_neg h1, if_neg h2, if_neg h3]
+  have hpre : (ModesOK N arr ∧ dupE = false ∧ optAll M (fun m => m = N ∨ m = arr.length) ∧
+      r = ⟨sortedModes arr, M.map (fun m => if arr.length = m then argsortInt arr else sortedModes arr)⟩) ↔
+      (optAll M (fun m => m = N ∨ m = arr.length) ∧
+      r = ⟨sortedModes arr, M.map (fun m => if arr.length = m then argsortInt arr else sortedModes arr)⟩) :=
+    ⟨fun h => h.2.2, fun h => ⟨hmodes, h3'.2, h⟩⟩
+  rw [hpre]
   cases M with
   | none =>
-    simp only [optAll, Option.map_none, true_and, hmodes, h3'.2, sortedModes]
-    constructor
-    · intro h; cases h; rfl
-    · intro h; rw [h]
+    show Except.ok _ = Except.ok r ↔ _
+    simp only [optAll, Option.map_none, true_and, sortedModes, Except.ok.injEq]
+    exact eq_comm
   | some m =>
-    simp only [optAll, Option.map_some, hmodes, h3'.2, true_and, sortedModes]
+    show (if m > N then _ else if m ≠ N ∧ m ≠ arr.length then _ else if arr.length = m then _ else _) = Except.ok r ↔ _
+    simp only [optAll, Option.map_some]
     by_cases hm1 : m > N
-    · simp only [hm1, if_true]
+    · rw [if_pos hm1]
       constructor
       · intro h; cases h
       · rintro ⟨h | h, _⟩ <;> omega
+    rw [if_neg hm1]
     by_cases hm2 : m ≠ N ∧ m ≠ arr.length
-    · simp only [hm1, hm2, if_false]
+    · rw [if_pos hm2]
       constructor
-      · intro h; simp at h
+      · intro h; cases h
       · rintro ⟨h | h, _⟩ <;> omega
+    rw [if_neg hm2]
     have hm2' : m = N ∨ m = arr.length := by omega
     by_cases hm3 : arr.length = m
-    · simp only [hm1, hm2, hm3, if_false, if_true]
-      constructor
-      · intro h; cases h; exact ⟨hm2'.imp id (fun _ => hm3.symm ▸ rfl), rfl⟩
-      · rintro ⟨_, h⟩; rw [h]
-    · simp only [hm1, hm2, hm3, if_false]
-      constructor
-      · intro h; cases h; exact ⟨hm2', rfl⟩
-      · rintro ⟨_, h⟩; rw [h]
+    · rw [if_pos hm3, if_pos hm3]
+      simp only [Except.ok.injEq, sortedModes, hm2', true_and]
+      exact eq_comm
+    · rw [if_neg hm3, if_neg hm3]
+      simp only [Except.ok.injEq, sortedModes, hm2', true_and]
+      exact eq_comm
 
 theorem complement_modesOK (N : Nat) (e : List Int) :
     ModesOK N (((List.range N).filter (fun (k : Nat) => !e.contains (Int.ofNat k))).map (fun (k : Nat) => Int.ofNat k)) := by
@@ -180,14 +186,14 @@ theorem dimscheck19_ok_iff (N : Nat) (M : Option Nat) (dims excl : Option (List 
       simp only [dimscheck19, dimsTail_ok_iff, Pre_dimscheck, selModes, optAll, Option.isSome_none, Option.isSome_some]
       constructor
       · rintro ⟨h1, _, h3, h4⟩; exact ⟨⟨by simp, h1, trivial, h3⟩, h4⟩
-      · rintro ⟨⟨_, h1, _, h3⟩, h4⟩; exact ⟨h1, rfl, h3, h4⟩
+      · rintro ⟨⟨_, h1, _, h3⟩, h4⟩; exact ⟨h1, trivial, h3, h4⟩
   | none =>
     cases excl with
     | none =>
       simp only [dimscheck19, dimsTail_ok_iff, Pre_dimscheck, selModes, optAll, Option.isSome_none]
       constructor
       · rintro ⟨_, _, h3, h4⟩; exact ⟨⟨by simp, trivial, trivial, h3⟩, h4⟩
-      · rintro ⟨⟨_, _, _, h3⟩, h4⟩; exact ⟨range_modesOK N, rfl, h3, h4⟩
+      · rintro ⟨⟨_, _, _, h3⟩, h4⟩; exact ⟨range_modesOK N, trivial, h3, h4⟩
     | some e =>
       simp only [dimscheck19, Pre_dimscheck, selModes, optAll, Option.isSome_none, Option.isSome_some]
       by_cases hall : e.all (fun x => decide (0 ≤ x) && decide (x < (N : Int))) = true
@@ -224,14 +230,259 @@ theorem dimsTail_refines (N : Nat) (M : Option Nat) (arr : List Int) (dupE : Boo
         else .ok ⟨(argsortInt arr).map (fun k => (arr.getD k 0).toNat),
                   some ((argsortInt arr).map (fun k => (arr.getD k 0).toNat))⟩) = .ok r := by
   unfold dimsTail at h
-  split at h
-  · cases h
-  · rename_i h1
-    simp only [h1, Bool.false_eq_true, if_false]
-    split at h
-    · cases h
-    · split at h
-      · cases h
-      · exact h
+  by_cases h1 : arr.any (· < 0) = true
+  · rw [if_pos h1] at h; cases h
+  rw [if_neg h1] at h
+  rw [if_neg h1]
+  by_cases h2 : arr.any (fun x => decide ((N : Int) ≤ x)) = true
+  · rw [if_pos h2] at h; cases h
+  rw [if_neg h2] at h
+  by_cases h3 : (hasDupI arr || dupE) = true
+  · rw [if_pos h3] at h; cases h
+  rw [if_neg h3] at h
+  cases M <;> exact h
+
+/-! ### which multiplicand meets which mode -/
+
+theorem zip_map_self {β γ : Type} (l : List β) (f : β → γ) : l.zip (l.map f) = l.map (fun k => (k, f k)) := by
+  induction l with
+  | nil => rfl
+  | cons x xs ih => simp [ih]
+
+theorem zip_self {β : Type} (l : List β) : l.zip l = l.map (fun k => (k, k)) := by
+  induction l with
+  | nil => rfl
+  | cons x xs ih => simp [ih]
+
+/-- the pairs the code loops over are, up to order, the pairs the specification names -/
+theorem pairs_perm (sel : List Int) (m : Nat) :
+    (DimsCheck.pairs ⟨sortedModes sel, some (if sel.length = m then argsortInt sel else sortedModes sel)⟩).Perm
+      (pairing m sel) := by
+  unfold DimsCheck.pairs pairing
+  by_cases h : sel.length = m
+  · simp only [h, if_true, Option.getD_some, sortedModes]
+    rw [zip_map_self]
+    have := (argsortInt_perm sel).map (fun k => (k, (sel.getD k 0).toNat))
+    rw [h] at this
+    exact this
+  · have h' : ¬ m = sel.length := fun e => h e.symm
+    simp only [h, if_false, Option.getD_some]
+    rw [if_neg h', zip_self]
+    have := (gather_perm sel Int.toNat).map (fun d => (d, d))
+    rw [List.map_map, List.map_map] at this
+    rw [sortedModes, List.map_map]
+    exact this
+
+theorem all_pairs_iff (sel : List Int) (m : Nat) (q : Nat × Nat → Bool) :
+    (DimsCheck.pairs ⟨sortedModes sel, some (if sel.length = m then argsortInt sel else sortedModes sel)⟩).all q = true ↔
+      ∀ p ∈ pairing m sel, q p = true := by
+  rw [List.all_eq_true]
+  exact ⟨fun h p hp => h p ((pairs_perm sel m).mem_iff.2 hp), fun h p hp => h p ((pairs_perm sel m).mem_iff.1 hp)⟩
+
+/-! ### ttv -/
+
+theorem validate_ttv_ok_iff (a : TtvArgs) : validate_ttv a = .ok () ↔ Pre_ttv a := by
+  unfold validate_ttv Pre_ttv
+  cases hd : dimscheck19 a.shape.length (some a.vecs.length) a.dims a.excl with
+  | error e =>
+    simp only [error_ne_ok, false_iff]
+    rintro ⟨hp, _⟩
+    have := (dimscheck19_ok_iff _ _ _ _ _).2 ⟨hp, rfl⟩
+    rw [hd] at this; cases this
+  | ok r =>
+    obtain ⟨hp, rfl⟩ := (dimscheck19_ok_iff _ _ _ _ _).1 hd
+    simp only [rejectIf_ok, Bool.not_eq_false', Option.map_some, all_pairs_iff, beq_iff_eq, hp, true_and]
+
+/-! ### ttm -/
+
+theorem validate_ttm_tucker_ok_iff (a : TtmArgs) :
+    validate_ttm_tucker a = .ok () ↔
+      Pre_dimscheck a.shape.length (some a.mats.length) a.dims a.excl ∧
+      ∀ p ∈ pairing a.mats.length (selModes a.shape.length a.dims a.excl),
+        (a.mats.getD p.1 (0, 0)).inner a.tr = a.shape.getD p.2 0 := by
+  unfold validate_ttm_tucker
+  cases hd : dimscheck19 a.shape.length (some a.mats.length) a.dims a.excl with
+  | error e =>
+    simp only [error_ne_ok, false_iff]
+    rintro ⟨hp, _⟩
+    have := (dimscheck19_ok_iff _ _ _ _ _).2 ⟨hp, rfl⟩
+    rw [hd] at this; cases this
+  | ok r =>
+    obtain ⟨hp, rfl⟩ := (dimscheck19_ok_iff _ _ _ _ _).1 hd
+    simp only [rejectIf_ok, Bool.not_eq_false', Option.map_some, all_pairs_iff, beq_iff_eq, hp, true_and]
+
+theorem getD_set_ne (l : List Nat) (i j v : Nat) (h : i ≠ j) : (l.set i v).getD j 0 = l.getD j 0 := by
+  simp [List.getD_eq_getElem?_getD, List.getElem?_set_ne h]
+
+/-- applying the matrices one after the other succeeds iff each matrix fits the ORIGINAL
+extent of its mode, because no mode is used twice -/
+theorem foldlM_ttmStep (tr : Bool) (mats : List MatS) :
+    ∀ (L : List (Nat × Nat)) (sh : List Nat), (L.map (·.2)).Nodup → (∀ p ∈ L, p.2 < sh.length) →
+      ((∃ s', L.foldlM (ttmStep tr mats) sh = .ok s') ↔
+        ∀ p ∈ L, (mats.getD p.1 (0, 0)).inner tr = sh.getD p.2 0) := by
+  intro L
+  induction L with
+  | nil => intro sh _ _; simp [List.foldlM, pure, Except.pure]
+  | cons p rest ih =>
+    intro sh hnd hlt
+    have hp : p.2 < sh.length := hlt p (List.mem_cons_self ..)
+    rw [List.map_cons, List.nodup_cons] at hnd
+    simp only [List.foldlM_cons, List.mem_cons, forall_eq_or_imp]
+    by_cases hfit : (mats.getD p.1 (0, 0)).inner tr = sh.getD p.2 0
+    · have hstep : ttmStep tr mats sh p = .ok (sh.set p.2 ((mats.getD p.1 (0, 0)).outer tr)) := by
+        unfold ttmStep
+        rw [if_neg (by omega), if_neg (by simp [hfit])]
+      rw [hstep]
+      show (∃ s', rest.foldlM (ttmStep tr mats) (sh.set p.2 _) = .ok s') ↔ _
+      rw [ih _ hnd.2 (by intro q hq; simpa using hlt q (List.mem_cons_of_mem _ hq))]
+      simp only [hfit, true_and]
+      constructor
+      · intro h q hq
+        rw [h q hq, getD_set_ne]
+        intro e; exact hnd.1 (List.mem_map.2 ⟨q, hq, e.symm⟩)
+      · intro h q hq
+        rw [h q hq, getD_set_ne]
+        intro e; exact hnd.1 (List.mem_map.2 ⟨q, hq, e.symm⟩)
+    · have hstep : ttmStep tr mats sh p = .error .reject := by
+        unfold ttmStep
+        rw [if_neg (by omega), if_pos (by simp [hfit])]
+      rw [hstep]
+      constructor
+      · rintro ⟨s', h⟩; cases h
+      · rintro ⟨h, _⟩; exact absurd h hfit
+
+theorem map_getD_range_int (sel : List Int) :
+    (List.range sel.length).map (fun j => (sel.getD j 0).toNat) = sel.map Int.toNat := by
+  apply List.ext_getElem
+  · simp
+  · intro i h1 h2
+    simp at h1
+    simp [List.getD_eq_getElem?_getD, List.getElem?_eq_getElem h1]
+
+/-- in either convention the modes that are multiplied are the selected ones -/
+theorem pairing_modes (m : Nat) (sel : List Int) : (pairing m sel).map (·.2) = sel.map Int.toNat := by
+  unfold pairing
+  by_cases h : m = sel.length
+  · rw [if_pos h, List.map_map, h]
+    exact map_getD_range_int sel
+  · rw [if_neg h, List.map_map]; rfl
+
+theorem toNat_nodup {N : Nat} {sel : List Int} (h : ModesOK N sel) : (sel.map Int.toNat).Nodup := by
+  refine (List.nodup_map_iff_inj_on h.2).2 ?_
+  intro x hx y hy e
+  have := (h.1 x hx).1
+  have := (h.1 y hy).1
+  omega
+
+theorem Pre_dimscheck.sel_modesOK {N : Nat} {M : Option Nat} {dims excl : Option (List Int)}
+    (h : Pre_dimscheck N M dims excl) : ModesOK N (selModes N dims excl) := by
+  obtain ⟨h0, h1, h2, _⟩ := h
+  cases dims with
+  | some d => exact h1
+  | none =>
+    cases excl with
+    | some e => exact complement_modesOK N e
+    | none => exact range_modesOK N
+
+theorem sortedModes_singleton (sel : List Int) (h : sel.length = 1) :
+    sortedModes sel = [(sel.getD 0 0).toNat] := by
+  match sel, h with
+  | [x], _ =>
+    have : argsortInt [x] = List.range 1 := argsortInt_of_sorted [x] (by simp)
+    simp [sortedModes, this]
+
+theorem length_sortedModes (sel : List Int) : (sortedModes sel).length = sel.length := by
+  simp [sortedModes, (argsortInt_perm sel).length_eq]
+
+theorem validate_ttm_seq_ok_iff (a : TtmArgs) :
+    validate_ttm_seq a = .ok () ↔
+      (if a.single = true then
+        Pre_dimscheck a.shape.length none a.dims a.excl ∧ (selModes a.shape.length a.dims a.excl).length = 1 ∧
+          a.mats.length = 1 ∧
+          (a.mats.getD 0 (0, 0)).inner a.tr = a.shape.getD ((selModes a.shape.length a.dims a.excl).getD 0 0).toNat 0
+       else
+        Pre_dimscheck a.shape.length (some a.mats.length) a.dims a.excl ∧
+          pairing a.mats.length (selModes a.shape.length a.dims a.excl) ≠ [] ∧
+          ∀ p ∈ pairing a.mats.length (selModes a.shape.length a.dims a.excl),
+            (a.mats.getD p.1 (0, 0)).inner a.tr = a.shape.getD p.2 0) := by
+  unfold validate_ttm_seq
+  by_cases hs : a.single = true
+  · rw [if_pos hs, if_pos hs]
+    cases hd : dimscheck19 a.shape.length none a.dims a.excl with
+    | error e =>
+      simp only [error_ne_ok, false_iff]
+      rintro ⟨hp, _⟩
+      have := (dimscheck19_ok_iff _ _ _ _ _).2 ⟨hp, rfl⟩
+      rw [hd] at this; cases this
+    | ok r =>
+      obtain ⟨hp, rfl⟩ := (dimscheck19_ok_iff _ _ _ _ _).1 hd
+      simp only [hp, true_and, length_sortedModes]
+      by_cases h1 : (selModes a.shape.length a.dims a.excl).length = 1
+      · rw [if_neg (by simp [h1])]
+        by_cases h2 : a.mats.length = 1
+        · rw [if_neg (by simp [h2]), map_unit_ok, sortedModes_singleton _ h1]
+          simp only [h1, h2, true_and, List.getD_cons_zero]
+          have hm := hp.sel_modesOK
+          have hlt : ((selModes a.shape.length a.dims a.excl).getD 0 0).toNat < a.shape.length := by
+            have hmem : (selModes a.shape.length a.dims a.excl).getD 0 0 ∈ selModes a.shape.length a.dims a.excl := by
+              rw [List.getD_eq_getElem?_getD, List.getElem?_eq_getElem (by omega)]
+              exact List.getElem_mem _
+            have := hm.1 _ hmem
+            unfold IsMode at this
+            omega
+          have := foldlM_ttmStep a.tr a.mats [(0, ((selModes a.shape.length a.dims a.excl).getD 0 0).toNat)] a.shape
+            (by simp) (by simpa using hlt)
+          simpa [List.foldlM, bind, Except.bind, pure, Except.pure] using this
+        · rw [if_pos (by simp [h2])]
+          simp [h2]
+      · rw [if_pos (by simp [h1])]
+        simp [h1]
+  · have hs' : a.single = false := by simpa using hs
+    rw [if_neg (by simp [hs']), if_neg hs]
+    cases hd : dimscheck19 a.shape.length (some a.mats.length) a.dims a.excl with
+    | error e =>
+      simp only [error_ne_ok, false_iff]
+      rintro ⟨hp, _⟩
+      have := (dimscheck19_ok_iff _ _ _ _ _).2 ⟨hp, rfl⟩
+      rw [hd] at this; cases this
+    | ok r =>
+      obtain ⟨hp, rfl⟩ := (dimscheck19_ok_iff _ _ _ _ _).1 hd
+      simp only [hp, true_and, Option.map_some]
+      have hperm := pairs_perm (selModes a.shape.length a.dims a.excl) a.mats.length
+      have hm := hp.sel_modesOK
+      have hnd : ((DimsCheck.pairs ⟨sortedModes (selModes a.shape.length a.dims a.excl),
+          some (if (selModes a.shape.length a.dims a.excl).length = a.mats.length then argsortInt (selModes a.shape.length a.dims a.excl)
+                else sortedModes (selModes a.shape.length a.dims a.excl))⟩).map (·.2)).Nodup := by
+        rw [(hperm.map (·.2)).nodup_iff, pairing_modes]
+        exact toNat_nodup hm
+      have hlt : ∀ p ∈ DimsCheck.pairs ⟨sortedModes (selModes a.shape.length a.dims a.excl),
+          some (if (selModes a.shape.length a.dims a.excl).length = a.mats.length then argsortInt (selModes a.shape.length a.dims a.excl)
+                else sortedModes (selModes a.shape.length a.dims a.excl))⟩, p.2 < a.shape.length := by
+        intro p hp'
+        have : p.2 ∈ (pairing a.mats.length (selModes a.shape.length a.dims a.excl)).map (·.2) :=
+          List.mem_map.2 ⟨p, hperm.mem_iff.1 hp', rfl⟩
+        rw [pairing_modes] at this
+        obtain ⟨x, hx, hxe⟩ := List.mem_map.1 this
+        have := hm.1 x hx
+        unfold IsMode at this
+        omega
+      have hfold := foldlM_ttmStep a.tr a.mats _ a.shape hnd hlt
+      by_cases hempty : (DimsCheck.pairs ⟨sortedModes (selModes a.shape.length a.dims a.excl),
+          some (if (selModes a.shape.length a.dims a.excl).length = a.mats.length then argsortInt (selModes a.shape.length a.dims a.excl)
+                else sortedModes (selModes a.shape.length a.dims a.excl))⟩) = []
+      · have : pairing a.mats.length (selModes a.shape.length a.dims a.excl) = [] := by
+          have := hperm.length_eq
+          rw [hempty] at this
+          exact List.eq_nil_of_length_eq_zero this.symm
+        rw [if_pos (by simp [hempty])]
+        simp [this]
+      · have hne : pairing a.mats.length (selModes a.shape.length a.dims a.excl) ≠ [] := by
+          intro e
+          have := hperm.length_eq
+          rw [e] at this
+          exact hempty (List.eq_nil_of_length_eq_zero this)
+        rw [if_neg (by simpa using hempty), map_unit_ok, hfold]
+        simp only [hne, ne_eq, not_false_eq_true, true_and]
+        exact ⟨fun h p hp' => h p (hperm.mem_iff.2 hp'), fun h p hp' => h p (hperm.mem_iff.1 hp')⟩
 
 end Pyttb
